@@ -8,7 +8,7 @@ LEVEL = "exploration"
 QTOL = 2.83168e-6
 RULE = ("(a) law in isolation: R1-pa-J1-[link]-J2-pb-R2, link kind x parameter alphabet x 10 head differences "
         "{-20,-1,-1e-3,-1e-5,0,1e-5,1e-3,1,20,60} x HW_approx{default,piecewise}, fully crossed; (b) netspace d<=1 (quick) / "
-        "d<=2 over link deviations (thorough) with all reported steps; oracle per link and step chosen by reported status "
+        "d<=2 over link deviations (thorough) with all reported steps; (c) edit-then-rerun of every link parameter; (d) valve settings changed during the run by time controls and by a pressure condition evaluated after the solve (8 valve/setting pairs x 3 threshold/peak variants); oracle per link and step chosen by reported status "
         "(HW+minor, A-B*Q^C from the curve points, power, valve settings, loss coefficients, no reverse flow). "
         "non-trivial: some link carries |q| > 1e-5 or is reported closed under a head difference")
 ASSUMPTIONS = ["documented constants: HW 10.667*C^-1.852*D^-4.871*L*q^1.852 (relative slack 5e-5 for the last documented digit), "
@@ -130,6 +130,20 @@ def cases(tier):
                              {"kind": "time", "t": 2 * 3600, "link": "x", "attr": "setting", "value": s0}]
             s["id"] = dict(s["id"], setting_control=[s0, s1])
             out.append(s)
+    # ... and by a conditional control on a junction pressure (evaluated AFTER the solve of a step: the step has to be
+    # solved again with the new setting).  R(80)-pa-J1; J1-x-J2-pb-R2(20); J1-pc-J3(patterned demand, its pressure drops
+    # below the threshold in the peak period).  The law is judged with the REPORTED setting.
+    for vt, s0, s1 in (("TCV", 50.0, 500.0), ("TCV", 500.0, 0.0), ("PRV", 30.0, 45.0), ("PRV", 45.0, 30.0), ("PSV", 70.0, 76.0), ("PSV", 76.0, 70.0),
+                       ("FCV", 0.04, 0.015), ("FCV", 0.015, 0.04)):
+        for thr, peak in ((70.0, 1.7), (70.0, 1.2), (60.0, 1.7)):
+            nodes = [R("R", 80.0), J("J1", 0.0, [[0.0, None, None]]), J("J2", 0.0, [[0.0, None, None]]), R("R2", 20.0),
+                     J("J3", 0.0, [[0.03, "PK", None]])]
+            links = [P("pa", "R", "J1", L=300.0, D=0.35, C=120.0), V("x", "J1", "J2", vt, s0, D=0.3, K=0.0),
+                     P("pb", "J2", "R2", L=400.0, D=0.25, C=110.0), P("pc", "J1", "J3", L=900.0, D=0.2, C=100.0)]
+            s = spec(nodes, links, OPTS(dur=5 * 3600), patterns={"PK": [0.5, 0.6, peak, peak, 1.0, 0.6]})
+            s["controls"] = [{"kind": "pressure", "node": "J3", "rel": "<", "thr": thr, "link": "x", "attr": "setting", "value": s1}]
+            s["id"] = {"postsolve_setting": [vt, s0, s1], "thr": thr, "peak": peak}
+            out.append(s)
     keep = lambda d: d["k"] in LINKDEV
     if tier == "quick":
         out += ns.enumerate_cases(1, keep=keep)
@@ -227,6 +241,9 @@ def check_links(s, r, viol, counts):
                     if c["t"] <= t:
                         cur = c["value"]
                 only_timed = len(timed) == len(s["controls"])
+                if any(c.get("attr") == "setting" and c["link"] == n and c["kind"] != "time" for c in s["controls"]):
+                    cur = float(sett[n][i])     # commanded by a condition on the hydraulic state: the reported setting is the one in force
+                    counts["reported_setting_steps"] = counts.get("reported_setting_steps", 0) + 1
                 l = dict(l, setting=cur)
                 if abs(float(sett[n][i]) - l["setting"]) > 1e-12 and (not s["controls"] or only_timed):
                     bad("valve-setting-report", "reported setting %.9g differs from the valve setting %.9g: " % (sett[n][i], l["setting"]) + where); return
@@ -284,6 +301,11 @@ def run_case(s):
             q2 = float(r2.link["flowrate"]["x"][0])
             if r2.error or abs(q2 + qi) > 1e-4 * abs(qi) + 1e-7:
                 viol.append({"key": "pipe-odd", "what": "mirrored head difference gives q=%.9g, original q=%.9g" % (q2, qi)})
+    elif "postsolve_setting" in s.get("id", {}):
+        se = r.link["setting"]["x"]
+        fired = [i for i in range(1, len(r.times)) if se[i] != se[i - 1]]
+        nontriv = any(int(st["x"][i]) == 2 and int(st["x"][i - 1]) == 2 for i in fired)
+        out = "postsolve:%s:%s" % (s["id"]["postsolve_setting"][0], "fired-while-active" if nontriv else ("fired" if fired else "never"))
     else:
         nontriv = max(abs(q[l]).max() for l in q) > 1e-5
         out = "net:" + ",".join(sorted(set("%s%d" % (l["t"][:2], int(v)) for l in s["links"] for v in set(st[l["n"]]))))
